@@ -248,7 +248,7 @@ def cases(tier, rng):
         for j in range(8 if tier == 'quick' else 80):
             yield {'k': 'interleave', 'kind': kind, 'n': 3 + j % 6, 'j': j}
         for c in range(a):
-            yield {'k': 'fault', 'kind': kind, 'call': c, 'points': 5 if tier == 'quick' else 400}
+            yield {'k': 'fault', 'kind': kind, 'call': c, 'points': 5 if tier == 'quick' else 150}
 
 _fresh = {}
 def fresh(kind, ci):
